@@ -28,7 +28,8 @@ How the clauses map to theorems
 * "a colour table is present whenever a non-default colour is used"      → `C12_table_present_iff`
 * the table is the master-index-sorted, duplicate-free, filtered list     → `C12_table_spec`
 * independence of the enumeration order of the collected set              → `C12_order_independent`
-* every attribute value an emitter can print was collected (all three paths) → inside `C12_document`, `C12_border_refs`
+* every attribute value an emitter can print was collected (all three paths, text / background / border colours of
+  every component) → inside `C12_document`, `C12_border_refs`, `C12_border_refs_emitters`
 * fonts                                                                  → `C12_fonts`
 * no context (direct use outside an encode): master index into the full table → `C12_full_table`
 -/
@@ -218,12 +219,13 @@ theorem C12_document (p : Path) (d : Doc) (hv : DocValid d) (e₁ e₂ : List St
     have := resolves_of_mem idxInj seenRgb_eq (h₁.trans h₂.symm) hr (h₂.mem_iff.mpr hcol) hs
     rw [this.1]; exact this.2
 
-/-- The same for border colours of table bodies (collected from the six `border_color_*` fields): if a `\brdrcf` is
-ever printed from such a value it resolves correctly.  (The unchanged code never passes a colour to `Border`.) -/
+/-- The same for the border colours of EVERY component (`components d`: bodies, footnote / source and the other text
+components, column headers — collected from the six `border_color_*` fields of each; repo fix, formerly of the bodies
+only): whatever value `BroadcastValue.iloc` hands to `Border`, a `\brdrcf` printed from it resolves correctly. -/
 theorem C12_border_refs (d : Doc) (e₁ e₂ : List String)
     (h₁ : e₁.Perm (collect d)) (h₂ : e₂.Perm (collect d)) (rows : List ColorRow)
     (hr : tableRows colorTable e₁ = .ok rows) :
-    ∀ k ∈ d.bodies, ∀ a ∈ k.borderColors, ∀ r c v, a.at r c = .ok (some v) →
+    ∀ k ∈ components d, ∀ a ∈ k.borderColors, ∀ r c v, a.at r c = .ok (some v) →
       (significant v = true → Resolves colorTable rows v (utilsColorIndex colorTable (some e₂) v none)) ∧
       (significant v = false → utilsColorIndex colorTable (some e₂) v none = 0) := by
   intro k hk a ha r c v hat
@@ -233,6 +235,15 @@ theorem C12_border_refs (d : Doc) (e₁ e₂ : List String)
   have hcol : v ∈ collect d := border_colors_collected hk ha (at_colors hat hne')
   have := resolves_of_mem idxInj seenRgb_eq (h₁.trans h₂.symm) hr (h₂.mem_iff.mpr hcol) hs
   rw [this.1]; exact this.2
+
+/-- … in particular of every component an encoding path can print (`emitters p d ⊆ components d`) -/
+theorem C12_border_refs_emitters (p : Path) (d : Doc) (e₁ e₂ : List String)
+    (h₁ : e₁.Perm (collect d)) (h₂ : e₂.Perm (collect d)) (rows : List ColorRow)
+    (hr : tableRows colorTable e₁ = .ok rows) :
+    ∀ k ∈ emitters p d, ∀ a ∈ k.borderColors, ∀ r c v, a.at r c = .ok (some v) →
+      (significant v = true → Resolves colorTable rows v (utilsColorIndex colorTable (some e₂) v none)) ∧
+      (significant v = false → utilsColorIndex colorTable (some e₂) v none = 0) :=
+  fun k hk => C12_border_refs d e₁ e₂ h₁ h₂ rows hr k (emitters_components p d hk)
 
 /-- What `TextContent._get_text_formatting` prints: no `\cf` / `\cb` for `None` and `""`, otherwise exactly the index
 the theorems above speak about; the font reference is `\f{font-1}`. -/
@@ -328,17 +339,21 @@ example : (tableRows colorTable ["red", "", "black", "blue"]).toOption.map (·.m
 def exampleDoc : Doc :=
   { bodies := [{ textColor := .nested [["red", "blue"], ["", "black"]], bgColor := .flat false ["gold"] }],
     texts := [{ textColor := .flat true ["aquamarine1", "aquamarine"] }],
-    headers := [{ bgColor := .nested [["gray0"]] }] }
+    headers := [{ bgColor := .nested [["gray0"]], borderColors := [.none, .flat false ["orange"]] }] }
 
-/-- the hypotheses of `C12_document` are satisfiable by a document with colours on a body, a title and a header -/
+/-- the hypotheses of `C12_document` / `C12_border_refs` are satisfiable by a document with colours on a body, a title
+and a header, the header with a border colour of its own (`orange`, collected since the repo fix) -/
 example : DocValid exampleDoc ∧
-    (collect exampleDoc).Perm ["gold", "aquamarine", "red", "gray0", "blue", "black", "aquamarine1"] ∧
+    (collect exampleDoc).Perm ["gold", "aquamarine", "red", "gray0", "blue", "black", "aquamarine1", "orange"] ∧
+    (∃ k ∈ components exampleDoc, ∃ a ∈ k.borderColors, a.at 0 0 = .ok (some "orange")) ∧
     (∃ c ∈ collect exampleDoc, significant c = true) := by
-  refine ⟨?_, ?_, ?_⟩
+  refine ⟨?_, ?_, ?_, ?_⟩
   · intro c hc
     have : (collect exampleDoc).all (fun c => validColor colorTable c) = true := by decide +kernel
     exact List.all_eq_true.mp this c hc
   · decide
+  · exact ⟨_, List.mem_append_right _ (List.mem_singleton.mpr rfl), _, List.mem_cons_of_mem _ (List.mem_singleton.mpr rfl),
+      rfl⟩
   · exact ⟨"red", by decide, by decide⟩
 
 end Props.C12
